@@ -512,6 +512,7 @@ func rsRun(sc *rsScenario) rsObs {
 		errMu.Lock()
 		errs = append(errs, cls)
 		errMu.Unlock()
+		_ = rc.Stats() // a callback may look at the statistics
 	}
 	opts := []mqtt.ReconnectOption{mqtt.WithReconnectWait(200*time.Microsecond, time.Millisecond),
 		mqtt.WithRetryClient(rc), mqtt.WithAlwaysResubscribe(sc.Always)}
@@ -566,6 +567,10 @@ func rsRun(sc *rsScenario) rsObs {
 	}
 	submit := func(op rsOp) {
 		pushed++
+		// request-scoped context, ended as soon as the call has returned (the usual `defer cancel()`): an
+		// accepted request must not depend on it any more
+		ctx, rcancel := context.WithCancel(ctx)
+		defer rcancel()
 		switch op.Kind {
 		case 'p':
 			m := &mqtt.Message{Topic: op.Topic, QoS: mqtt.QoS(op.QoS), Retain: op.Retain,
@@ -655,7 +660,11 @@ phases:
 				// wait until the loop has pushed Resubscribe/Retry (monotone condition), then barrier
 				deadline := time.Now().Add(rsWait)
 				for {
-					st := cli.Stats()
+					st, ok := rsStats(cli)
+					if !ok {
+						obs.Stuck = where + ": Stats() does not return"
+						break phases
+					}
 					if st.TotalTasks+st.QueuedTasks >= pushed+loopPushed {
 						break
 					}
@@ -691,7 +700,10 @@ phases:
 		}
 	}
 	if !done() {
-		st := cli.Stats()
+		st, ok := rsStats(cli)
+		if !ok {
+			obs.Stuck = "Stats() does not return"
+		}
 		obs.RetryQ = st.QueuedRetries
 		obs.TaskQ = st.QueuedTasks
 		for _, s := range rc.VerifSubEstablished() {
@@ -1177,6 +1189,19 @@ func rsSuspectTiming(sc *rsScenario, o *rsObs) bool {
 		}
 	}
 	return n > fired
+}
+
+// rsStats: Stats() with a limit (a client whose task goroutine deadlocks while holding the statistics lock
+// must not hang the driver). ok=false: Stats did not return.
+func rsStats(cli mqtt.ReconnectClient) (mqtt.RetryStats, bool) {
+	ch := make(chan mqtt.RetryStats, 1)
+	go func() { ch <- cli.Stats() }()
+	select {
+	case st := <-ch:
+		return st, true
+	case <-time.After(rsWaitDur()):
+		return mqtt.RetryStats{}, false
+	}
 }
 
 // rsExtra: additional families (written directly into the cases file) per property.
